@@ -4,7 +4,8 @@
     1 = before all three fixes, 2 = before the own-task and stale-initial-future fixes, 3 = before
     the stale-initial-future fix (corpus witnesses, model only).
     shapes: 0..3 as in Async.v (0 with wrap 2: new_unsync + tracked refetch counter, what
-    LocalResource::new builds); 4: leptos_server ArcResource::new / Resource::new (wrap 1);
+    LocalResource::new builds; wrap 3 / 4: the real ArcLocalResource::new / LocalResource::new, whose
+    Executor::tick() tasks the harness runs at once, so that a load starts within one poll); 4: leptos_server ArcResource::new / Resource::new (wrap 1);
     5: ArcOnceResource::new / OnceResource::new (wrap 1).
     events: (0 i v) write signal i, (1) refetch, (2 v) manual set Some(v), (3) notify,
             (4 f) complete future f, (5 t) poll task t (0 = node, 1 = dependent effect),
@@ -69,11 +70,11 @@ Definition run_C10 (x : sexp) : sexp :=
   let sh := as_nat (nth_s 0 x) in
   let wrap := as_nat (nth_s 1 x) in
   (* case shapes 4 (real ArcResource / Resource) and 5 (once-resource) map onto the model's
-     resource-like shape 3 and its [once] flag; shape 0 with wrap 2 is the LocalResource-like node *)
+     resource-like shape 3 and its [once] flag; shape 0 with wrap >= 2 is the LocalResource(-like) node *)
   let c := mkCfg (match sh with 4%nat => 3%nat | 5%nat => 0%nat | n => n end) (as_nat (nth_s 2 x))
                  (negb (Z.eqb variant 1)) (negb (Z.eqb variant 2) && negb (Z.eqb variant 1))
                  (Z.eqb variant 0)
-                 (Nat.eqb sh 0 && Nat.eqb wrap 2) (Nat.eqb sh 5) the_fetch in
+                 (Nat.eqb sh 0 && Nat.leb 2 wrap) (Nat.eqb sh 5) the_fetch in
   let s0 := init c (as_opt as_Z (nth_s 3 x)) in
   let '(t, s1) := trace c s0 (as_list (nth_s 4 x)) in
   let s2 := settle c 16 s1 in
